@@ -718,19 +718,52 @@ class PteraTransformer(NodeTransformer):
                 )
             return accum
 
+        def _unpack(elts):
+            # Unpack into temporaries with a real unpacking assignment, so
+            # that the iteration protocol, length checks and starred
+            # targets behave exactly as in the original statement, then
+            # bind (and report) each target from its temporary.
+            temps = [_gensym() for _ in elts]
+            unpack = ast.copy_location(
+                ast.Assign(
+                    targets=[
+                        ast.Tuple(
+                            elts=[
+                                ast.Starred(
+                                    value=ast.Name(id=tmp, ctx=ast.Store()),
+                                    ctx=ast.Store(),
+                                )
+                                if isinstance(elt, ast.Starred)
+                                else ast.Name(id=tmp, ctx=ast.Store())
+                                for elt, tmp in zip(elts, temps)
+                            ],
+                            ctx=ast.Store(),
+                        )
+                    ],
+                    value=self.visit(node.value),
+                ),
+                node,
+            )
+            accum = [unpack]
+            for elt, tmp in zip(elts, temps):
+                tgt = elt.value if isinstance(elt, ast.Starred) else elt
+                accum += self.visit_Assign(
+                    ast.copy_location(
+                        ast.Assign(
+                            targets=[tgt],
+                            value=ast.Name(id=tmp, ctx=ast.Load()),
+                        ),
+                        node,
+                    )
+                )
+            return accum
+
         targets = node.targets
         if len(targets) > 1:
             return _decompose(targets, lambda value, i: value)
 
-        elif isinstance(targets[0], ast.Tuple):
-            return _decompose(
-                targets[0].elts,
-                lambda value, i: ast.Subscript(
-                    value=value,
-                    slice=ast.Index(value=ast.Constant(i)),
-                    ctx=ast.Load(),
-                ),
-            )
+        elif isinstance(targets[0], (ast.Tuple, ast.List)):
+            return _unpack(targets[0].elts)
         else:
             return self.make_interaction(
                 targets[0], None, self.visit(node.value), orig=node
